@@ -21,7 +21,7 @@ func init() {
 			ruleM6(c)
 			ruleX1(c) // a frame that was written only in part ends the mux: nothing is ever written after a truncated frame
 		},
-		explanation: "Decides the framing structure of the multiplexer: every write to the trunk happens in mux.write with the trunk write lock held, the lock being taken before the chunk loop and released only by the deferred unlock (so header, payload and all chunks of one logical write are contiguous on the trunk); the length written into the header, the upper bound of the payload slice and the advance of the remaining data are one and the same value, the id written is the connection's, and both slice expressions are proved in bounds inductively; writer and reader use the same byte order and the same constant header sub-ranges for id and length; there is exactly one reader goroutine, started where the mux is created, and it is the only code that reads the trunk and the only sender on the per-connection queues, whose only receiver is conn.Read; the buffer queued is the buffer read and it is queued on the connection looked up under the header's id; the raw trunk handed out by Trunk() is used only for the peer-credential lookup; Read copies out of the dequeued message and returns its length. Every trunk read is a full read (io.ReadFull); only Open adds to and only conn.Close removes from the connection table. The id lookup in Open is made under the exclusive lock the registration is made under; a partial trunk write ends the mux whatever the error.",
+		explanation: "Decides the framing structure of the multiplexer: every write to the trunk happens in mux.write with the trunk write lock held, the lock being taken before the chunk loop and released only by the deferred unlock (so header, payload and all chunks of one logical write are contiguous on the trunk); the length written into the header, the upper bound of the payload slice and the advance of the remaining data are one and the same value, the id written is the connection's, and both slice expressions are proved in bounds inductively; writer and reader use the same byte order and the same constant header sub-ranges for id and length; there is exactly one reader goroutine, started where the mux is created, and it is the only code that reads the trunk and the only sender on the per-connection queues, whose only receiver is conn.Read; the buffer queued is the buffer read and it is queued on the connection looked up under the header's id; the raw trunk handed out by Trunk() is used only for the peer-credential lookup; Read copies out of the dequeued message and returns its length. Every trunk read is a full read (io.ReadFull); only Open adds to and only conn.Close removes from the connection table. The id lookup in Open is made under the exclusive lock the registration is made under; a partial trunk write ends the mux whatever the error. Only write, reader and Close touch the trunk.",
 		notDecided: []string{
 			"what the peer wrote; reassembly of oversized payloads above the mux",
 			"kernel socket semantics",
@@ -309,6 +309,33 @@ func ruleM4(c *Ctx) {
 	}
 	if len(reads) < 2 {
 		c.violate("M4", "trunk-reads", rd.Pos(), "header and payload are read from the trunk", fmt.Sprintf("found %d trunk reads", len(reads)))
+	}
+	// nothing else touches the shared trunk: a logical connection's own methods (deadlines, …) must not act on it
+	muxClose := m.method(pkgMux, "mux", "Close")
+	allowed := map[*ssa.Function]bool{rd: true, m.method(pkgMux, "mux", "write"): true, muxClose: true}
+	for _, ci := range calls(muxClose) {
+		// the body Close hands to its once (a closure or a method value)
+		if g := m.callee(ci.Common()); g != nil && g.String() == "(*sync.Once).Do" && len(ci.Common().Args) == 2 {
+			if body := closureFn(ci.Common().Args[1]); body != nil {
+				allowed[body] = true
+			}
+		}
+	}
+	for _, g := range m.funcsInPkg(pkgMux) {
+		root := g
+		for root.Parent() != nil {
+			root = root.Parent()
+		}
+		if allowed[root] {
+			continue
+		}
+		for _, ci := range calls(g) {
+			cc := ci.Common()
+			if cc.IsInvoke() && isTrunkPath(m.ap(cc.Value)) {
+				c.violate("M4", "trunk-user/"+funcKey(g)+"/"+cc.Method.Name(), ci.Pos(), "the trunk is used only by the multiplexer's write, reader and Close",
+					funcKey(g)+" calls "+cc.Method.Name()+" on the shared trunk: what one logical connection does there (a deadline, a close) hits every other connection's stream")
+			}
+		}
 	}
 	// every read of the trunk is a complete read of the buffer handed in: a stream transport may return fewer bytes
 	for i, r := range reads {
@@ -745,3 +772,5 @@ func ruleM6(c *Ctx) {
 }
 
 func isConnsPath(a AP) bool { return len(a.Path) > 0 && a.Path[len(a.Path)-1] == "conns" }
+
+func isTrunkPath(a AP) bool { return len(a.Path) > 0 && a.Path[len(a.Path)-1] == "trunk" }
